@@ -1,6 +1,7 @@
 CONSTANT Tau = "1/10000000000"
 CONSTANT TauLog = "1/1000000000"
 CONSTANT DeepDepth = 50
+CONSTANT KSigma = 8
 SPECIFICATION Spec
 CHECK_DEADLOCK FALSE
 INVARIANT Done
